@@ -28,7 +28,7 @@ def run(ctx):
     cpath = os.path.join(ctx.tmp, "fs-cases.ndjson")
     vf.write_ndjson(cpath, cases)
     events = []
-    for g, l, n in ctx.pick([(3, 5, 150), (4, 4, 100), (2, 8, 100)], [(3, 5, 2000), (4, 5, 1500), (2, 10, 1500), (5, 4, 800), (8, 3, 400)]):
+    for g, l, n in ctx.pick([(3, 5, 150), (4, 4, 100), (2, 8, 100)], [(3, 5, 8000), (4, 5, 6000), (2, 10, 6000), (5, 4, 3000), (8, 3, 1500), (3, 8, 2000)]):
         out = os.path.join(ctx.tmp, "fs-%d-%d.ndjson" % (g, l))
         first = not events
         ctx.run_vh(["feestore", "-out", out, "-n", n, "-g", g, "-len", l, "-nseq", ctx.pick(300, 5000) if first else 0] +
